@@ -559,3 +559,514 @@ Proof.
   intros W R Ht. apply (wpost_fr g false); [apply writer_write_all_post|exact W|apply writer_write_all_WI; exact W|].
   apply recs_app; [exact R|apply stream_records_recs; exact Ht].
 Qed.
+
+(* ------------------------------------------------------------------------------------------ *)
+(* Part C2: Request::poll_output / poll_input / writeable / record_boundary / close               *)
+(* ------------------------------------------------------------------------------------------ *)
+
+Lemma poll_output_fr g : forall fuel r w, WI g w -> FI r w ->
+  match poll_output fuel r w with (_, r', w') => WI g w' /\ FI r' w' end.
+Proof.
+  induction fuel as [|f IH]; intros r w W F; [split; assumption|].
+  cbn [poll_output]. destruct F as (O & A & B).
+  destruct (output_buffer (rsp r)) as [|x o'] eqn:Eo.
+  - split; [exact W|]. unfold FI. cbn [rsp rlock]. rewrite Eo. split; [exact O|]. split; [exact A|].
+    intros _. rewrite app_nil_r in A. exact A.
+  - destruct (t_poll_write (x :: o') w) as [p w1] eqn:ET. destruct (tpw_fr g _ w p w1 ET W) as [W1 C].
+    destruct p as [[n|k]| |]; try contradiction.
+    + destruct C as (L1 & Hn & Hn0). destruct (N.eqb_spec n 0) as [Hz|Hz]; [specialize (Hn0 Hz); discriminate Hn0|].
+      apply IH; [exact W1|]. unfold FI. cbn [rsp rlock].
+      split; [apply consume_output_oinv; exact O|]. split; [|discriminate].
+      rewrite consume_output_buffer, Eo, L1, <- app_assoc, take_drop. exact A.
+    + split; [exact W1|]. unfold FI. cbn [rsp rlock]. rewrite Eo, C. split; [exact O|]. split; [exact A|discriminate].
+Qed.
+
+Section FrameConn.
+Variable maxc : N.
+
+Lemma compress_pext p : pext p (compress p).
+Proof. apply pext_same; reflexivity. Qed.
+
+Lemma consume_stream_pext p n : pext p (consume_stream p n).
+Proof. apply pext_same; reflexivity. Qed.
+
+Lemma input_loop_fr g : forall fuel dest new r w, WI g w -> FI r w ->
+  match input_loop maxc fuel dest new r w with (_, r', w') => WI g w' /\ FI r' w' end.
+Proof.
+  induction fuel as [|f IH]; intros dest new r w W F; [split; assumption|].
+  cbn [input_loop]. pose proof (sparse_ext maxc (rsp r) new dest) as X.
+  destruct (sparse maxc (rsp r) new dest) as [p1 s|p1 e s|n].
+  - destruct (s_end s || (0 <? s_stream s)).
+    + split; [exact W|].
+      match goal with |- context [if ?c then _ else _] => destruct c end; apply FI_pext; assumption.
+    + set (r2 := mkR (compress p1) (rwriteable r) (rlock r) (raborted r)).
+      assert (F2 : FI r2 w) by (apply FI_pext; [exact F|eapply pext_trans; [exact X|apply compress_pext]]).
+      pose proof (poll_output_fr g (S f) r2 w W F2) as PO.
+      destruct (poll_output (S f) r2 w) as [[po r3] w0]. destruct PO as [W0 F0].
+      destruct po as [[u|k]| |]; try (split; assumption).
+      destruct (t_poll_read (sinput_space (rsp r3)) w0) as [pr w1] eqn:ET.
+      destruct (tpr_fr g _ _ _ _ ET W0) as [W1 L1]. pose proof (FI_wlog _ _ _ F0 L1) as F1.
+      destruct pr as [[b|k]| |]; try (split; assumption).
+      destruct b as [|y b']; [split; assumption|]. apply IH; assumption.
+  - split; [exact W|]. apply FI_pext; assumption.
+  - split; assumption.
+Qed.
+
+Lemma poll_input_fr g fuel dest r w : WI g w -> FI r w ->
+  match poll_input maxc fuel dest r w with (_, r', w') => WI g w' /\ FI r' w' end.
+Proof.
+  intros W F. unfold poll_input. cbv zeta.
+  assert (POLL : match (match poll_output fuel r w with
+                 | (PReady (inl _), r1, w1) => input_loop maxc fuel dest [] r1 w1
+                 | (PReady (inr k), r1, w1) => (PReady (inr k), r1, w1)
+                 | (PWake, r1, w1) => (PWake, r1, w1)
+                 | (PBlock, r1, w1) => (PBlock, r1, w1)
+                 end) with (_, r', w') => WI g w' /\ FI r' w' end).
+  { pose proof (poll_output_fr g fuel r w W F) as PO. destruct (poll_output fuel r w) as [[po r1] w1].
+    destruct PO as [W1 F1]. destruct po as [[u|k]| |]; try (split; assumption). apply input_loop_fr; assumption. }
+  destruct dest as [c|].
+  - destruct c as [|c'].
+    + destruct (stream_buffer (rsp r)); split; assumption.
+    + destruct (stream_buffer (rsp r)) as [|x sb']; [exact POLL|].
+      split; [exact W|]. apply FI_pext; [exact F|apply consume_stream_pext].
+  - destruct (stream_buffer (rsp r)) as [|x sb']; [exact POLL|split; assumption].
+Qed.
+
+Lemma await_input_fr g : forall fuel dest r w, WI g w -> FI r w -> rpost g (await_input maxc fuel dest r w).
+Proof.
+  induction fuel as [|f IH]; intros dest r w W F; [apply (FI_HP g r); [exact F|discriminate]|].
+  cbn [await_input].
+  pose proof (poll_input_fr g (io_fuel w (len (buffer (rsp r)))) dest r w W F) as PI.
+  destruct (poll_input maxc (io_fuel w (len (buffer (rsp r)))) dest r w) as [[p r1] w1]. destruct PI as [W1 F1].
+  destruct p as [x| |].
+  - split; assumption.
+  - apply (on_wake_fr g false w1 _ (rpost g) W1).
+    + intros Wb. apply IH; [exact Wb|exact F1].
+    + intros ->. split; [eapply FI_framed; exact F1|discriminate].
+  - apply (on_block_fr g false w1 _ (rpost g) W1).
+    + intros -> Ws. apply IH; [exact Ws|exact F1].
+    + intros ->. split; [eapply FI_framed; exact F1|discriminate].
+    + apply (FI_HP g r1); [exact F1|discriminate].
+Qed.
+
+Lemma do_writeable_fr g r w : WI g w -> FI r w -> rpost g (do_writeable maxc r w).
+Proof.
+  intros W F. unfold do_writeable. destruct (rwriteable r); [split; assumption|].
+  match goal with |- context [set_stream ?p ?s] => destruct (set_stream p s) as [p'| |] eqn:ES end;
+    [|apply (FI_HP g r); [exact F|discriminate]..].
+  apply set_stream_ext in ES.
+  match goal with |- context [await_input maxc ?fu ?d ?r0 w] =>
+    pose proof (await_input_fr g fu d r0 w W (FI_pext r w p' _ _ F ES)) as H;
+    destruct (await_input maxc fu d r0 w) as [[[v|k] r'] w'|o w'] end; exact H.
+Qed.
+
+Lemma boundary_loop_fr g : forall fuel new r w, WI g w -> FI r w -> rpost g (boundary_loop maxc fuel new r w).
+Proof.
+  induction fuel as [|f IH]; intros new r w W F; [apply (FI_HP g r); [exact F|discriminate]|].
+  rewrite ConnTotal.boundary_loop_S.
+  assert (AFTER : forall p', pext (rsp r) p' -> rpost g (ConnTotal.bl_after maxc f r w p')).
+  { intros p' X. unfold ConnTotal.bl_after. cbv zeta. destruct (is_record_boundary p').
+    { split; [exact W|apply FI_pext; assumption]. }
+    assert (F2 : FI (mkR (compress p') (rwriteable r) (rlock r) (raborted r)) w).
+    { apply FI_pext; [exact F|eapply pext_trans; [exact X|apply compress_pext]]. }
+    pose proof (await_read_fr g (io_fuel w 0) false (sinput_space (compress p')) w W) as AR.
+    destruct (await_read (io_fuel w 0) false (sinput_space (compress p')) w) as [[b|k] w1|o w1].
+    - destruct AR as [W1 L1]. pose proof (FI_wlog _ _ _ F2 L1) as F1.
+      destruct b as [|x b']; [split; assumption|]. apply IH; assumption.
+    - destruct AR as [W1 L1]. split; [exact W1|apply (FI_wlog _ _ _ F2 L1)].
+    - destruct AR as [L1 Ho]. split; [|exact Ho]. eapply FI_framed. apply (FI_wlog _ _ _ F2 L1). }
+  pose proof (sparse_ext maxc (rsp r) new None) as X.
+  destruct (sparse maxc (rsp r) new None) as [p' s|p' e s|n];
+    [apply AFTER; exact X| |apply (FI_HP g r); [exact F|discriminate]].
+  destruct e; try (apply AFTER; exact X); (split; [exact W|apply FI_pext; assumption]).
+Qed.
+
+Lemma record_boundary_fr g r w : WI g w -> FI r w -> rpost g (record_boundary maxc r w).
+Proof.
+  intros W F. unfold record_boundary. destruct (is_record_boundary (rsp r)); [split; assumption|apply boundary_loop_fr; assumption].
+Qed.
+
+(* Request::close after the record boundary: whatever comes back, the log consists of whole records *)
+Lemma close_finish_fr g r3 d c w2 : WI g w2 -> FI r3 w2 ->
+  match close_finish r3 d c w2 with
+  | Ok _ w' => WI g w' /\ recs (wlog w')
+  | Halt o w' => HP g o w'
+  end.
+Proof.
+  intros W F. unfold close_finish.
+  destruct (epilogue (r_id (sreq (rsp r3))) d c (if rwriteable r3 then ROLE_OUTPUT_STREAMS else [])) as [ep|] eqn:Eep;
+    [|apply (FI_HP g r3); [exact F|discriminate]].
+  apply epilogue_recs in Eep. cbv zeta. set (out := output_buffer (rsp r3)).
+  assert (R : recs (wlog w2 ++ out)) by apply F.
+  pose proof (awa_fr g (io_fuel w2 (len out)) false out w2 W R) as A1.
+  destruct (await_write_all (io_fuel w2 (len out)) false out w2) as [[k3|] w3|o w3]; cbn [wfr] in A1; [contradiction| |exact A1].
+  destruct A1 as [W3 L3].
+  assert (R3 : recs (wlog w3 ++ ep)) by (rewrite L3; apply recs_app; assumption).
+  pose proof (awa_fr g (io_fuel w3 (len ep)) false ep w3 W3 R3) as A2.
+  destruct (await_write_all (io_fuel w3 (len ep)) false ep w3) as [[k4|] w4|o w4]; cbn [wfr] in A2; [contradiction| |exact A2].
+  destruct A2 as [W4 L4]. rewrite <- L4 in R3.
+  destruct (N.land (r_flags (sreq (close_p4 r3))) FLAG_KeepConn =? FLAG_KeepConn); [|split; assumption].
+  destruct (into_request_parser (close_p4 r3)); [split; assumption|split; assumption|].
+  split; [apply framed_of_recs; exact R3|discriminate].
+Qed.
+
+Lemma close_tail_fr g r1 d c w1 : WI g w1 -> FI r1 w1 ->
+  match close_tail maxc r1 d c w1 with
+  | Ok (inl _) w' => WI g w' /\ recs (wlog w')
+  | Ok (inr _) w' => WI g w' /\ framed (wlog w') /\ (rlock r1 = false -> recs (wlog w'))
+  | Halt o w' => HP g o w'
+  end.
+Proof.
+  intros W F. rewrite close_tail_unfold.
+  destruct (set_stream (rsp r1) None) as [p2| |] eqn:ES; [|apply (FI_HP g r1); [exact F|discriminate]..].
+  apply set_stream_ext in ES. set (r2 := mkR p2 (rwriteable r1) (rlock r1) (raborted r1)).
+  assert (F2 : FI r2 w1) by (apply FI_pext; assumption).
+  pose proof (record_boundary_fr g r2 w1 W F2) as RB.
+  destruct (record_boundary maxc r2 w1) as [[[k2|] r3] w2|o w2] eqn:ERB; cbn [rpost] in RB; [| |exact RB].
+  - destruct RB as [W2 F3]. apply record_boundary_spec in ERB. destruct ERB as (_ & _ & _ & Hlk & _). cbn [r2 rlock] in Hlk.
+    split; [exact W2|]. split; [eapply FI_framed; exact F3|]. intros Hl. apply F3. congruence.
+  - destruct RB as [W2 F3]. pose proof (close_finish_fr g r3 d c w2 W2 F3) as CF.
+    destruct (close_finish r3 d c w2) as [[rp|k] w'|o w']; [exact CF| |exact CF].
+    destruct CF as [CW CR]. split; [exact CW|]. split; [apply framed_of_recs; exact CR|intros _; exact CR].
+Qed.
+
+Lemma do_close_fr g r d c w : WI g w -> FI r w ->
+  (forall e r1 w1, do_writeable maxc r w = Ok (e, r1) w1 -> g = true -> rlock r1 = false) ->
+  match do_close maxc r d c w with
+  | Ok (inl _) w' => WI g w' /\ recs (wlog w')
+  | Ok (inr _) w' => WI g w' /\ framed (wlog w') /\ (g = true -> recs (wlog w'))
+  | Halt o w' => HP g o w'
+  end.
+Proof.
+  intros W F LK. unfold do_close. pose proof (do_writeable_fr g r w W F) as DW.
+  destruct (do_writeable maxc r w) as [[e r1] w1|o w1]; cbn [rpost] in DW; [|exact DW].
+  destruct DW as [W1 F1]. specialize (LK e r1 w1 eq_refl).
+  assert (CT : match close_tail maxc r1 d c w1 with
+               | Ok (inl _) w' => WI g w' /\ recs (wlog w')
+               | Ok (inr _) w' => WI g w' /\ framed (wlog w') /\ (g = true -> recs (wlog w'))
+               | Halt o w' => HP g o w'
+               end).
+  { pose proof (close_tail_fr g r1 d c w1 W1 F1) as C.
+    destruct (close_tail maxc r1 d c w1) as [[rp|k] w'|o w']; [exact C| |exact C].
+    destruct C as (C1 & C2 & C3). split; [exact C1|]. split; [exact C2|]. intros Hg. apply C3, LK, Hg. }
+  destruct e as [k|]; [|exact CT]. destruct ((k =? EK_Aborted) && raborted r1); [exact CT|].
+  split; [exact W1|]. split; [eapply FI_framed; exact F1|]. intros Hg. apply F1, LK, Hg.
+Qed.
+
+(* ------------------------------------------------------------------------------------------ *)
+(* Part C3: handlers.  From here on the invariants of Async/ConnTotal.v are threaded as well: the lock discipline *)
+(* (an awaited read returns with Request.lock released, ConnTotal.await_input_lock) needs them                    *)
+(* ------------------------------------------------------------------------------------------ *)
+Variable norm : bytes -> bytes.
+
+(* in mode [g = true] the output lock is free between the operations of the handler *)
+Definition HI (g : bool) (r : rstate) (w : world) : Prop :=
+  rgood r /\ world_ok w /\ WI g w /\ FI r w /\ (g = true -> rlock r = false).
+
+Definition hpostF {X} (g : bool) (x : res (X * rstate)) : Prop :=
+  match x with Ok (_, r') w' => HI g r' w' | Halt o w' => HP g o w' end.
+
+Lemma HI_HP g r w o : HI g r w -> o <> ORet -> HP g o w.
+Proof. intros (_ & _ & _ & F & _). apply (FI_HP g r). exact F. Qed.
+
+Lemma await_input_HI g dest r w : HI g r w -> hpostF g (await_input maxc (io_fuel w 0) dest r w).
+Proof.
+  intros (G & Wok & W & F & LK).
+  pose proof (await_input_io norm maxc dest r w G Wok) as AI.
+  pose proof (await_input_fr g (io_fuel w 0) dest r w W F) as AF.
+  pose proof (fun Hl : rlock r = false =>
+                await_input_lock norm maxc (io_fuel w 0) dest r w (pgood_lgood _ (proj1 G)) Wok (or_introl Hl)) as AL.
+  destruct (await_input maxc (io_fuel w 0) dest r w) as [[[[c b]|k] r1] w1|o w1]; cbn [rpost hpostF] in *.
+  - destruct AI as (G1 & S1 & _). destruct AF as [W1 F1].
+    split; [exact G1|]. split; [exact (ws_ok _ _ S1 Wok)|]. split; [exact W1|]. split; [exact F1|].
+    intros Hg. specialize (AL (LK Hg)). unfold ai_lock in AL. apply AL.
+  - destruct AI as [(G1 & S1 & _) _]. destruct AF as [W1 F1].
+    split; [exact G1|]. split; [exact (ws_ok _ _ S1 Wok)|]. split; [exact W1|]. split; [exact F1|].
+    intros Hg. specialize (AL (LK Hg)). unfold ai_lock in AL. destruct AL as (_ & _ & [L|L]); [exact L|].
+    exfalso. apply L. apply W.
+  - exact AF.
+Qed.
+
+Lemma read_all_HI g : forall fuel acc r w, HI g r w -> hpostF g (read_all maxc fuel acc r w).
+Proof.
+  induction fuel as [|f IH]; intros acc r w H; [apply (HI_HP g r); [exact H|discriminate]|].
+  cbn [read_all]. pose proof (await_input_HI g (Some 64) r w H) as A.
+  destruct (await_input maxc (io_fuel w 0) (Some 64) r w) as [[[[n b]|k] r'] w'|o w']; cbn [hpostF] in A |- *.
+  - destruct (n =? 0); [exact A|apply IH; exact A].
+  - exact A.
+  - exact A.
+Qed.
+
+Lemma do_writeable_HI g r w : HI g r w -> hpostF g (do_writeable maxc r w).
+Proof.
+  intros (G & Wok & W & F & LK).
+  pose proof (do_writeable_ok norm maxc r w G Wok) as DW. pose proof (do_writeable_fr g r w W F) as DF.
+  destruct (do_writeable maxc r w) as [[e r1] w1|o w1]; cbn [rpost hpostF] in *; [|exact DF].
+  destruct DW as ((G1 & S1 & _) & _ & _ & L). destruct DF as [W1 F1].
+  split; [exact G1|]. split; [exact (ws_ok _ _ S1 Wok)|]. split; [exact W1|]. split; [exact F1|].
+  intros Hg. specialize (L (LK Hg)). destruct e as [k|]; [|exact L]. destruct L as [L|L]; [exact L|].
+  exfalso. apply L. apply W.
+Qed.
+
+Lemma HI_consume g r w c : HI g r w -> HI g (mkR (consume_stream (rsp r) c) (rwriteable r) (rlock r) (raborted r)) w.
+Proof.
+  intros (G & Wok & W & F & LK).
+  destruct (consume_stream_views (rsp r) c (proj1 (proj1 G))) as (V1 & V2 & V3 & _).
+  split; [apply (rgood_transfer r); [exact G|exact V1|exact V3|rewrite V2; apply G|reflexivity]|].
+  split; [exact Wok|]. split; [exact W|]. split; [apply FI_pext; [exact F|apply consume_stream_pext]|exact LK].
+Qed.
+
+Lemma HI_set g r w s p' : HI g r w -> set_stream (rsp r) (Some s) = SetOk p' ->
+  HI g (mkR p' (rwriteable r) (rlock r) (raborted r)) w.
+Proof.
+  intros (G & Wok & W & F & LK) E. pose proof (set_stream_ok_accepted _ _ _ E) as A.
+  destruct (set_stream_views (rsp r) (Some s) p' (proj1 G) (accepts_input _ _ _ A) E) as (V1 & V2 & V3 & _).
+  split.
+  { split; [exact V1|]. pose proof (proj2 G) as Wr. unfold wr_inv, wr_inv_at in *. cbn [rsp rwriteable].
+    rewrite V2, V3. destruct (accepts_some_inv _ _ _ A) as [I1 I2].
+    destruct (rwriteable r); [apply I1; exact Wr|]. destruct Wr as (x & Ex & Hx). exists s. split; [reflexivity|].
+    apply (I2 x Ex Hx). }
+  split; [exact Wok|]. split; [exact W|]. split; [apply FI_pext; [exact F|apply set_stream_ext with (s := Some s); exact E]|exact LK].
+Qed.
+
+Lemma FI_write r w w' b : FI r w -> rlock r = false -> wlog w' = wlog w ++ b -> recs b -> FI r w'.
+Proof.
+  intros (O & A & B) Hl E Hb. specialize (B Hl). pose proof (recs_cancel _ B _ A) as Hob.
+  unfold FI. rewrite E. split; [exact O|]. split; [apply recs_app; [apply recs_app; assumption|exact Hob]|].
+  intros _. apply recs_app; assumption.
+Qed.
+
+(* the scripts of the statement: well-formed, writing only to known stream types; in mode [g = true] no abandoned read *)
+Inductive fscript (g : bool) : list N -> Prop :=
+| FS_nil : fscript g []
+| FS_read n rest : fscript g rest -> fscript g (1 :: n :: rest)
+| FS_all rest : fscript g rest -> fscript g (2 :: rest)
+| FS_fill k rest : fscript g rest -> fscript g (3 :: k :: rest)
+| FS_set s rest : fscript g rest -> fscript g (4 :: s :: rest)
+| FS_wr rest : fscript g rest -> fscript g (5 :: rest)
+| FS_write s n rest : known_type s = true -> fscript g (drop n rest) -> fscript g (6 :: s :: n :: rest)
+| FS_flush s rest : fscript g rest -> fscript g (7 :: s :: rest)
+| FS_exit d c rest : In d EXITSTATUS_VALUES -> fscript g (8 :: d :: c :: rest)
+| FS_fail k rest : fscript g (9 :: k :: rest)
+| FS_readq n rest : fscript g rest -> fscript g (10 :: n :: rest)
+| FS_poll n rest : g = false -> fscript g rest -> fscript g (11 :: n :: rest).
+
+Definition hres (g : bool) (x : res ((N * N + N) * rstate)) : Prop :=
+  match x with
+  | Ok (st, r') w' => HI g r' w' /\ match st with inl (d, _) => In d EXITSTATUS_VALUES | inr _ => True end
+  | Halt o w' => HP g o w'
+  end.
+
+Lemma run_handler_HI g script : fscript g script -> forall f r w, HI g r w -> hres g (run_handler maxc f script r w).
+Proof.
+  induction 1 as [|n rest H IH|rest H IH|k rest H IH|s rest H IH|rest H IH|s n rest Hs H IH|s rest H IH|d c rest Hd|k rest
+                  |n rest H IH|n rest Hg H IH];
+    intros f r w HH; (destruct f as [|f]; [apply (HI_HP g r); [exact HH|discriminate]|]); cbn [run_handler].
+  - (* end of script *) split; [exact HH|apply exit_complete_in].
+  - (* 1 n *)
+    pose proof (await_input_HI g (Some n) r w HH) as A.
+    destruct (await_input maxc (io_fuel w 0) (Some n) r w) as [[[[c b]|k] r1] w1|o w1]; cbn [hpostF] in A;
+      [apply IH; exact A|apply IH; exact A|exact A].
+  - (* 2 *)
+    match goal with |- context [read_all maxc ?fu [] r w] =>
+      pose proof (read_all_HI g fu [] r w HH) as A; destruct (read_all maxc fu [] r w) as [[[k acc] r1] w1|o w1] end;
+      cbn [hpostF] in A; [apply IH; exact A|exact A].
+  - (* 3 k *)
+    pose proof (await_input_HI g None r w HH) as A.
+    destruct (await_input maxc (io_fuel w 0) None r w) as [[[[c b]|e] r1] w1|o w1]; cbn [hpostF] in A; [| |exact A].
+    + apply IH. apply (HI_consume g r1 w1 _ A).
+    + apply IH. exact A.
+  - (* 4 s *)
+    destruct (set_stream (rsp r) (Some s)) as [p'| |] eqn:E; [|apply (HI_HP g r); [exact HH|discriminate]..].
+    apply IH. apply (HI_set g r w s p' HH E).
+  - (* 5 *)
+    pose proof (do_writeable_HI g r w HH) as A.
+    destruct (do_writeable maxc r w) as [[e r1] w1|o w1]; cbn [hpostF] in A; [apply IH; exact A|exact A].
+  - (* 6 s n data *)
+    cbv zeta. destruct (negb (rwriteable r)); [apply IH; exact HH|].
+    destruct HH as (G & Wok & W & F & LK).
+    destruct (rlock r) eqn:Elk.
+    + destruct (N.eqb_spec (len (take n rest)) 0) as [Hz|Hz]; cbn [negb andb].
+      * apply len_zero_nil in Hz. rewrite Hz. rewrite writer_write_all_empty by lia.
+        apply IH. split; [exact G|]. split; [exact Wok|]. split; [exact W|]. split; [exact F|]. intros Hg. specialize (LK Hg). discriminate LK.
+      * apply (FI_HP g r); [exact F|discriminate].
+    + cbn [andb].
+      pose proof (wwa_fr g (N.to_nat (n / 65535) + 2) s (r_id (sreq (rsp r))) (take n rest) w W (proj2 (proj2 F) Elk) Hs) as WW.
+      pose proof (ConnWrites.writer_write_all_ok (N.to_nat (n / 65535) + 2) s (r_id (sreq (rsp r))) (take n rest) w) as WS.
+      destruct (writer_write_all (N.to_nat (n / 65535) + 2) s (r_id (sreq (rsp r))) (take n rest) w) as [[k|] w1|o w1];
+        cbn [wfr] in WW; [contradiction| |exact WW].
+      destruct WW as [W1 L1]. destruct (WS w1 eq_refl) as (_ & _ & Hsegs & _).
+      apply IH. split; [exact G|]. split; [unfold world_ok; cbn [w_ev segs]; rewrite Hsegs; exact Wok|]. split; [exact W1|].
+      split; [|intros _; exact Elk].
+      apply (FI_write r w _ (stream_records s (r_id (sreq (rsp r))) (take n rest)) F Elk L1).
+      apply stream_records_recs. exact Hs.
+  - (* 7 s *)
+    destruct (rwriteable r); [|apply IH; exact HH].
+    destruct (rlock r) eqn:Elk; [apply (HI_HP g r); [exact HH|discriminate]|apply IH; exact HH].
+  - (* 8 d c *) split; [exact HH|exact Hd].
+  - (* 9 k *) split; [exact HH|exact I].
+  - (* 10 n *)
+    pose proof (await_input_HI g (Some n) r w HH) as A.
+    destruct (await_input maxc (io_fuel w 0) (Some n) r w) as [[[[c b]|k] r1] w1|o w1]; cbn [hpostF] in A;
+      [apply IH; exact A|split; [exact A|exact I]|exact A].
+  - (* 11 n *)
+    subst g. destruct HH as (G & Wok & W & F & LK).
+    pose proof (poll_input_ok norm maxc (io_fuel w (len (buffer (rsp r)))) (Some n) r w G Wok ltac:(rewrite io_fuel_eq; lia)) as PI.
+    pose proof (poll_input_fr false (io_fuel w (len (buffer (rsp r)))) (Some n) r w W F) as PF.
+    assert (T : forall r1 w1 dd, ckeep r w 0 r1 w1 dd -> WI false w1 /\ FI r1 w1 -> HI false r1 w1).
+    { intros r1 w1 dd (G1 & S1 & _) [W1 F1]. split; [exact G1|]. split; [exact (ws_ok _ _ S1 Wok)|].
+      split; [exact W1|]. split; [exact F1|discriminate]. }
+    destruct (poll_input maxc (io_fuel w (len (buffer (rsp r)))) (Some n) r w) as [[[[[c b]|k]| |] r1] w1];
+      apply IH; change (HI false r1 w1); [eapply T; [exact PI|exact PF]|eapply T; [exact (proj1 PI)|exact PF]..].
+Qed.
+
+Lemma do_close_HI g r d c w : HI g r w -> In d EXITSTATUS_VALUES ->
+  match do_close maxc r d c w with
+  | Ok (inl rp) w' => parser_ok rp /\ world_ok w' /\ WI g w' /\ recs (wlog w')
+  | Ok (inr _) w' => framed (wlog w') /\ (g = true -> recs (wlog w'))
+  | Halt o w' => HP g o w'
+  end.
+Proof.
+  intros (G & Wok & W & F & LK) Hd.
+  pose proof (do_close_ok norm maxc r d c w G Wok Hd) as DC.
+  assert (L : forall e r1 w1, do_writeable maxc r w = Ok (e, r1) w1 -> g = true -> rlock r1 = false).
+  { intros e r1 w1 E Hg. pose proof (do_writeable_ok norm maxc r w G Wok) as DW. rewrite E in DW.
+    destruct DW as (_ & _ & _ & L). specialize (L (LK Hg)). destruct e as [k|]; [|exact L].
+    destruct L as [L|L]; [exact L|]. exfalso. apply L. apply W. }
+  pose proof (do_close_fr g r d c w W F L) as DF.
+  destruct (do_close maxc r d c w) as [[rp|k] w'|o w']; unfold close_post in DC.
+  - destruct DC as (C1 & _ & C3 & _). destruct DF as [D1 D2].
+    split; [exact C1|]. split; [exact (ws_ok _ _ C3 Wok)|]. split; assumption.
+  - destruct DF as (_ & D2 & D3). split; assumption.
+  - exact DF.
+Qed.
+
+(* ------------------------------------------------------------------------------------------ *)
+(* Part C4: Token::parse_request and Token::run                                                 *)
+(* ------------------------------------------------------------------------------------------ *)
+
+Lemma into_stream_parser_out p s : into_stream_parser p = inl s -> output s = [] /\ output_start s = 0.
+Proof.
+  unfold into_stream_parser. destruct (st p); intros E; try discriminate E. injection E as <-. split; reflexivity.
+Qed.
+
+Lemma parse_request_fr g : forall fuel p new w, WI g w -> recs (wlog w) ->
+  match parse_request norm maxc fuel p new w with
+  | Ok x w' => WI g w' /\ recs (wlog w') /\ match x with inl s => output s = [] /\ output_start s = 0 | inr _ => True end
+  | Halt o w' => HP g o w'
+  end.
+Proof.
+  induction fuel as [|f IH]; intros p new w W R; [split; [apply framed_of_recs; exact R|discriminate]|].
+  cbn [parse_request]. destruct (parse norm maxc p new) as [p' done out|n] eqn:EP;
+    [|split; [apply framed_of_recs; exact R|discriminate]].
+  apply parse_out_recs in EP.
+  pose proof (awa_fr g (io_fuel w (len out)) true out w W (recs_app _ _ R EP)) as A1.
+  destruct (await_write_all (io_fuel w (len out)) true out w) as [[k|] w1|o w1]; cbn [wfr] in A1; [contradiction| |exact A1].
+  destruct A1 as [W1 L1]. assert (R1 : recs (wlog w1)) by (rewrite L1; apply recs_app; assumption).
+  destruct done.
+  - destruct (into_stream_parser p') as [s|e] eqn:EI.
+    + split; [exact W1|]. split; [exact R1|]. apply (into_stream_parser_out p' s EI).
+    + split; [exact W1|]. split; [exact R1|exact I].
+  - pose proof (await_read_fr g (io_fuel w1 0) true (input_space p') w1 W1) as AR.
+    destruct (await_read (io_fuel w1 0) true (input_space p') w1) as [[b|k] w2|o w2].
+    + destruct AR as [W2 L2]. rewrite <- L2 in R1.
+      destruct b as [|x b']; [split; [exact W2|]; split; [exact R1|exact I]|]. apply IH; assumption.
+    + destruct AR as [W2 L2]. rewrite <- L2 in R1. split; [exact W2|]. split; [exact R1|exact I].
+    + destruct AR as [L2 Ho]. split; [|exact Ho]. rewrite L2. apply framed_of_recs. exact R1.
+Qed.
+
+Lemma fold_ev_HI g r (env : list (bytes * bytes)) : forall w, HI g r w ->
+  HI g r (fold_left (fun w p => w_ev (w_ev w (fst p)) (snd p)) env w).
+Proof. induction env as [|e t IH]; intros w H; [exact H|]. cbn [fold_left]. apply IH. exact H. Qed.
+
+Lemma run_loop_fr g scripts : Forall (fscript g) scripts ->
+  forall fuel p served w, parser_ok p -> world_ok w -> WI g w -> recs (wlog w) ->
+  match run_loop norm maxc fuel p scripts served w with
+  | (o, w') => framed (wlog w') /\ (g = true -> o = ORet -> recs (wlog w'))
+  end.
+Proof.
+  intros Hscripts. induction fuel as [|f IH]; intros p served w Hp Wok W R;
+    [split; [apply framed_of_recs; exact R|intros _ X; discriminate X]|].
+  cbn [run_loop].
+  destruct (stopped w); [split; [apply framed_of_recs; exact R|intros _ _; exact R]|].
+  pose proof (parse_request_ok norm maxc (io_fuel w 0) p [] w Hp Wok ltac:(apply Forall_nil) ltac:(rewrite len_nil; lia)
+                ltac:(rewrite io_fuel_eq; lia)) as PR.
+  pose proof (parse_request_fr g (io_fuel w 0) p [] w W R) as PF.
+  unfold preq_post in PR.
+  destruct (parse_request norm maxc (io_fuel w 0) p [] w) as [[s0|k] w1|o w1].
+  2:{ destruct PF as (_ & R1 & _). split; [apply framed_of_recs; exact R1|intros _ _; exact R1]. }
+  2:{ destruct PF as [P1 P2]. split; [exact P1|]. intros Hg X. exfalso. exact (P2 Hg X). }
+  destruct PR as (G0 & S1 & _ & St0 & _). destruct PF as (W1 & R1 & Eo & Es).
+  set (role := r_role (sreq s0)) in *.
+  set (r0 := mkR s0 (len (role_input_streams role) <=? 1) false false).
+  assert (GR0 : rgood r0).
+  { split; [exact G0|]. unfold wr_inv. subst r0. cbn [rsp rwriteable]. fold role. rewrite St0. apply wr_inv_init. }
+  assert (H0 : HI g r0 w1).
+  { split; [exact GR0|]. split; [exact (ws_ok _ _ S1 Wok)|]. split; [exact W1|]. split; [|intros _; reflexivity].
+    unfold FI, oinv, output_buffer. subst r0. cbn [rsp rlock]. rewrite Eo, Es. change (len (@nil N)) with 0.
+    split; [lia|]. split; [|intros _; exact R1]. change (drop 0 (@nil N)) with (@nil N). rewrite app_nil_r. exact R1. }
+  cbv zeta.
+  match goal with |- context [fold_left ?fn ?env ?wi] =>
+    pose proof (fold_ev_HI g r0 env wi H0) as H2; set (w2 := fold_left fn env wi) in * end.
+  set (script := nth served scripts (last scripts [])).
+  assert (Hscript : fscript g script).
+  { subst script. apply Forall_nth_default; [exact Hscripts|]. apply Forall_last; [exact Hscripts|constructor]. }
+  pose proof (run_handler_HI g script Hscript (length script + 2) r0 w2 H2) as RH.
+  destruct (run_handler maxc (length script + 2) script r0 w2) as [[st r1] w3|o w3]; cbn [hres] in RH.
+  2:{ destruct RH as [P1 P2]. split; [exact P1|]. intros Hg X. exfalso. exact (P2 Hg X). }
+  destruct RH as [H3 Hst].
+  assert (CLOSE : forall d c, In d EXITSTATUS_VALUES ->
+    match (match do_close maxc r1 d c w3 with
+           | Halt o w4 => (o, w4)
+           | Ok (inl rp) w4 => run_loop norm maxc f rp scripts (S served) w4
+           | Ok (inr _) w4 => (ORet, w4)
+           end) with
+    | (o, w') => framed (wlog w') /\ (g = true -> o = ORet -> recs (wlog w'))
+    end).
+  { intros d c Hd. pose proof (do_close_HI g r1 d c w3 H3 Hd) as DC.
+    destruct (do_close maxc r1 d c w3) as [[rp|k] w4|o w4].
+    - destruct DC as (C1 & C2 & C3 & C4). apply IH; assumption.
+    - destruct DC as [C1 C2]. split; [exact C1|]. intros Hg _. exact (C2 Hg).
+    - destruct DC as [P1 P2]. split; [exact P1|]. intros Hg X. exfalso. exact (P2 Hg X). }
+  destruct st as [[d c]|k].
+  - apply CLOSE. exact Hst.
+  - destruct ((k =? EK_Aborted) && raborted r1); [apply CLOSE; apply exit_complete_in|].
+    destruct H3 as (_ & _ & _ & F3 & LK3). split; [eapply FI_framed; exact F3|]. intros Hg _. apply F3, LK3, Hg.
+Qed.
+
+End FrameConn.
+
+(* ------------------------------------------------------------------------------------------ *)
+(* Part D: the theorem                                                                           *)
+(* ------------------------------------------------------------------------------------------ *)
+
+Lemma fscript_of g role : forall cur s, script_ok false role cur s -> writes_known s -> (g = true -> no_abandoned_read s) ->
+  fscript g s.
+Proof.
+  induction 1 as [cur|cur n rest H IH|cur rest H IH|cur k rest H IH|cur s rest Hacc H IH|cur rest H IH
+                  |cur s n rest H IH|cur s rest H IH|cur d c rest Hd|cur k rest|cur n rest H IH|cur n rest H IH];
+    intros Hw Hna.
+  - constructor.
+  - constructor. apply IH; [inversion Hw; assumption|intros Hg; specialize (Hna Hg); inversion Hna; assumption].
+  - constructor. apply IH; [inversion Hw; assumption|intros Hg; specialize (Hna Hg); inversion Hna; assumption].
+  - constructor. apply IH; [inversion Hw; assumption|intros Hg; specialize (Hna Hg); inversion Hna; assumption].
+  - constructor. apply IH; [inversion Hw; assumption|intros Hg; specialize (Hna Hg); inversion Hna; assumption].
+  - constructor. apply IH; [inversion Hw; assumption|intros Hg; specialize (Hna Hg); inversion Hna; assumption].
+  - constructor; [inversion Hw; assumption|]. apply IH; [inversion Hw; assumption|intros Hg; specialize (Hna Hg); inversion Hna; assumption].
+  - constructor. apply IH; [inversion Hw; assumption|intros Hg; specialize (Hna Hg); inversion Hna; assumption].
+  - constructor. exact Hd.
+  - constructor.
+  - constructor. apply IH; [inversion Hw; assumption|intros Hg; specialize (Hna Hg); inversion Hna; assumption].
+  - destruct g.
+    + specialize (Hna eq_refl). inversion Hna.
+    + constructor; [reflexivity|]. apply IH; [inversion Hw; assumption|discriminate].
+Qed.
+
+Lemma fscripts_of g scripts : scripts_ok false scripts -> Forall writes_known scripts ->
+  (g = true -> Forall no_abandoned_read scripts) -> Forall (fscript g) scripts.
+Proof.
+  intros Hs Hw Hna. unfold scripts_ok in Hs. rewrite Forall_forall in Hs, Hw. apply Forall_forall. intros s Hin.
+  apply (fscript_of g 0 _ s (Hs s Hin 0) (Hw s Hin)). intros Hg. specialize (Hna Hg). rewrite Forall_forall in Hna.
+  apply Hna, Hin.
+Qed.
+
